@@ -409,14 +409,59 @@ impl OpCode {
 }
 
 /// Computes the weight of a bunch of opcodes.
+///
+/// The weight of a sequence is the (saturating) sum of the weights of its instructions, where a loop
+/// weighs `iterations * weight(body) + 1` and its body, the next `body_len` instructions, is clipped to
+/// the sequence the loop sits in. The instructions of a body are weighed again as part of the enclosing
+/// sequence, so computing this by plain recursion takes time exponential in the nesting depth. Instead,
+/// the sequences that can occur all start somewhere and end either at the end of the program or at the
+/// end of some loop's body: the ends are processed in increasing order, one right-to-left pass each,
+/// which takes time at most `len * (number of distinct ends)` and memory linear in `len`.
 pub fn opcodes_weight(opcodes: &[OpCode]) -> u128 {
-    let (mut sum, mut rest) = opcodes_car_weight(opcodes);
-    while !rest.is_empty() {
-        let (delta_sum, new_rest) = opcodes_car_weight(rest);
-        rest = new_rest;
-        sum = sum.saturating_add(delta_sum);
+    let n = opcodes.len();
+    // where the body of the loop at position j would end if nothing clipped it
+    let natural_end = |j: usize, body_len: u16| (j + 1 + body_len as usize).min(n);
+    let mut ends: Vec<usize> = opcodes
+        .iter()
+        .enumerate()
+        .filter_map(|(j, op)| match op {
+            OpCode::Loop(_, body_len) => Some(natural_end(j, *body_len)),
+            _ => None,
+        })
+        .collect();
+    ends.push(n);
+    ends.sort_unstable();
+    ends.dedup();
+    // weight of each loop instruction with its unclipped body, filled in when the pass for that end is made
+    let mut loop_weight: Vec<Option<u128>> = vec![None; n];
+    let mut total = 0u128;
+    for &end in &ends {
+        // suffix = weight of opcodes[j + 1..end] while position j is processed
+        let mut suffix = 0u128;
+        for j in (0..end).rev() {
+            let car = match &opcodes[j] {
+                OpCode::Loop(iters, body_len) => {
+                    let body_end = natural_end(j, *body_len);
+                    match loop_weight[j] {
+                        // the body lies inside this sequence: weighed in the pass for its own end
+                        Some(weight) if body_end < end => weight,
+                        // the body runs to the end of this sequence (clipped, or exactly): it is the suffix
+                        _ => {
+                            let weight = suffix.saturating_mul(*iters as u128).saturating_add(1);
+                            if body_end == end {
+                                loop_weight[j] = Some(weight);
+                            }
+                            weight
+                        }
+                    }
+                }
+                _ => opcodes_car_weight(&opcodes[j..j + 1]).0,
+            };
+            suffix = suffix.saturating_add(car);
+        }
+        total = suffix;
     }
-    sum
+    total
 }
 
 /// Compute the weight of the first bit of opcodes, returning a weight and what remains.
